@@ -74,6 +74,11 @@ constexpr int64_t MAX_NODES = 3000;
 constexpr size_t MAX_EDGES = 20000;
 
 
+// option decoding shared by the generator and run_csr_e: LC_CSR_CSC_Graph configurations 1 and 3 copy the in-edge data
+static bool csc_cfg_by_reference(int opts) {
+  int cfg = (opts & 7) % 5;
+  return cfg != 1 && cfg != 3;
+}
 static bool kind_needs_data(int kind) { return kind == K_CSR_ARRAYS || kind == K_CSR_ARRAYS_POD; }
 
 void normalize_case(Case& c) {
@@ -91,6 +96,8 @@ void normalize_case(Case& c) {
     c[F_ASEED] = -(c[F_ASEED] + 1);
   if (kind_needs_data((int)c[F_KIND]) && c[F_ETYPE] == ET_VOID)
     c[F_ETYPE] = ET_U32; // vector<vector<void>> cannot be formed
+  if (c[F_KIND] == K_INOUT_OTHER && c[F_ETYPE] != ET_VOID)
+    c[F_ETYPE] = ET_U32; // built for void and uint32 edge data only
 }
 
 Case generate() {
@@ -146,8 +153,41 @@ Case generate() {
   }
   c[F_NODES] = n;
   normalize_case(c);
+  // known findings: avoid exactly the failing operation shape
+  //  - KEY_SORTED_EMPTY: findEdgeSortedByDst is not queried on graphs without edges (csr_membership)
+  //  - KEY_REUSE_OOL: no second constructFrom on an LC_CSR_Graph with out-of-line locks (configurations 3 and 4, uint32 data)
+  if (excluded(KEY_REUSE_OOL) && kind == K_CSR_ARRAYS && c[F_ETYPE] == ET_U32 && ((c[F_OPTS] >> 4) & 1) && ((c[F_OPTS] & 7) % 6 == 3 || (c[F_OPTS] & 7) % 6 == 4)) {
+    count_excluded();
+    c[F_OPTS] = c[F_OPTS] & ~16;
+  }
+  //  - KEY_LINEAR_EMPTY: no empty graph for LC_Linear_Graph (also under LC_InOut_Graph)
+  if (excluded(KEY_LINEAR_EMPTY) && (kind == K_LINEAR || kind == K_INOUT_OTHER) && n == 0) {
+    count_excluded();
+    n = 1;
+    c[F_NODES] = 1;
+  }
+  //  - KEY_CSC_SORT_VOID: no in-edge sort on a by-reference LC_CSR_CSC_Graph without edge data
+  if (excluded(KEY_CSC_SORT_VOID) && (kind == K_CSC_READGRAPH || kind == K_CSC_GRFILE) && c[F_ETYPE] == ET_VOID && csc_cfg_by_reference((int)c[F_OPTS])) {
+    int kept = 0, mul = 1;
+    bool hit = false;
+    for (int o = (int)c[F_OPS]; o > 0; o /= 6) {
+      int d = o % 6;
+      if (d == OP_SORT_ALL_DST || d == OP_SORT_SOME_DST) {
+        hit = true;
+        continue;
+      }
+      kept += d * mul;
+      mul *= 6;
+    }
+    if (hit) {
+      count_excluded();
+      c[F_OPS] = kept;
+    }
+  }
   if (n == 0) {
-    // a few edges in the tail anyway: they must be ignored
+    // an edge in the tail anyway: it must be ignored
+    for (int i = 0; i < 3; ++i)
+      c.f.push_back(*gen::inRange<int64_t>(0, 5));
     return c;
   }
   int shape = *uni(0, 7); // 0 uniform, 1 out-hub, 2 in-hub, 3 few destinations (parallel edges), 4 self loops, 5 last node isolated, 6 last node busy
@@ -190,10 +230,6 @@ Case generate() {
     c.f.push_back(d);
     c.f.push_back(*gen::inRange<int64_t>(0, wr));
   }
-  // known findings: avoid exactly the failing operation shape
-  if (excluded(KEY_SORTED_EMPTY)) {
-    // findEdgeSortedByDst on a graph without edges is not queried (see run_csr_t); nothing to re-draw
-  }
   return c;
 }
 
@@ -203,6 +239,12 @@ std::string finding_key(const Case& c0, const std::string& failkey) {
   int kind = (int)c[F_KIND];
   if (failkey == "findEdgeSortedByDst-no-edges")
     return KEY_SORTED_EMPTY;
+  if (failkey == "crash" && c[F_NODES] == 0 && (kind == K_LINEAR || kind == K_INOUT_OTHER))
+    return KEY_LINEAR_EMPTY; // sanitizer abort inside the parallel construction: reported as a crash
+  if (failkey == "sortInEdgesByDst-void-edge-data")
+    return KEY_CSC_SORT_VOID;
+  if (failkey == "constructFrom-reuse-out-of-line-lockable")
+    return KEY_REUSE_OOL;
   return std::string("C11/") + KIND_SUBJECT[kind] + "/" + failkey;
 }
 
@@ -246,6 +288,10 @@ static void decode(const Case& c, Ctx& x) {
   // readGraphFromGRFile asserts non-null node and edge arrays: at least one node and one edge
   if (grfile && x.n == 0)
     x.n = 1;
+  if (x.n == 0 && (x.kind == K_LINEAR || x.kind == K_INOUT_OTHER) && excluded(KEY_LINEAR_EMPTY)) {
+    count_excluded(); // (cases that do not come from the generator)
+    x.n = 1;
+  }
   // MorphGraph undirected (opts cfg 2): every file edge is one undirected edge; self loops are left out
   bool undirected = x.kind == K_MORPH_READGRAPH && (x.opts & 7) % 3 == 2;
   // the isomorphism check of the unordered morph layouts needs distinct edge labels
@@ -431,9 +477,11 @@ static void csc_check_in(Gr& g, const Ctx& c, const Adj& in, const char* stage) 
   }
 }
 
-template <class Gr, bool IsCsc>
-static void run_csr_t(const Ctx& c) {
+// CscMode: 0 = plain CSR, 1 = LC_CSR_CSC_Graph with shared (by reference) in-edge data, 2 = by value
+template <class Gr, int CscMode>
+static void run_csr_t(const Ctx& c, bool out_of_line_locks = false) {
   typedef typename Gr::edge_data_type E;
+  constexpr bool IsCsc = CscMode != 0;
   std::unique_ptr<Gr> gp;
   Adj model          = c.adj;
   bool readUnweighted = false;
@@ -471,7 +519,25 @@ static void run_csr_t(const Ctx& c) {
             ids[u].push_back(e.dst);
         gp->constructFrom(c.n, c.m, prefix, ids, data);
         if ((c.opts >> 4) & 1) { // "deallocate if reusing the graph": construct a second time
-          gp->constructFrom(c.n, c.m, prefix, ids, data);
+          bool skip = false;
+          if (out_of_line_locks) {
+            // known finding: the out-of-line lock array is not released before it is allocated again
+            if (excluded(KEY_REUSE_OOL)) {
+              count_excluded();
+              skip = true;
+            } else {
+              Gr* raw = gp.get();
+              int how = probe_in_child([&] {
+                galois::setActiveThreads(1); // the child has no pool threads: page-in must stay on this thread
+                raw->destroyAndAllocateFrom(c.n, c.m);
+              });
+              CCHECK(how == 0, "constructFrom-reuse-out-of-line-lockable",
+                     "second constructFrom(%u nodes, %llu edges) on an LC_CSR_Graph with out-of-line locks: destroyAndAllocateFrom ends the process (%s %d)", c.n,
+                     (unsigned long long)c.m, how >= 1000 ? "exit status" : "signal", how >= 1000 ? how - 1000 : how);
+            }
+          }
+          if (!skip)
+            gp->constructFrom(c.n, c.m, prefix, ids, data);
         }
       } else {
         galois::gstl::Vector<galois::PODResizeableArray<uint32_t>> ids(c.n);
@@ -538,6 +604,22 @@ static void run_csr_t(const Ctx& c) {
     step        = 0;
     for (int op : c.ops) {
       ++step;
+      if ((op == OP_SORT_ALL_DST || op == OP_SORT_SOME_DST) && std::is_void<E>::value && CscMode == 1) {
+        // known finding: without edge data the shared-data graph never allocates the in-edge
+        // index array its sort iterator reads; probed in a child on one node that needs comparisons
+        if (excluded(KEY_CSC_SORT_VOID)) {
+          count_excluded();
+          continue;
+        }
+        for (uint32_t u = 0; u < c.n; ++u)
+          if (in[u].size() >= 2) {
+            int how = probe_in_child([&] { g.sortInEdgesByDst(u); });
+            CCHECK(how == 0, "sortInEdgesByDst-void-edge-data",
+                   "sortInEdgesByDst(%u) on an LC_CSR_CSC_Graph without edge data (in-edge data by reference), node has in-edges %s: ends the process (%s %d)", u,
+                   show(c, in[u]).c_str(), how >= 1000 ? "exit status" : "signal", how >= 1000 ? how - 1000 : how);
+            break;
+          }
+      }
       if (op == OP_SORT_ALL_DST) {
         g.sortAllInEdgesByDst();
         Adj got = csc_observe_in(g, c);
@@ -699,29 +781,25 @@ static void run_csr_e(const Ctx& c, int cfg) {
   bool full = std::is_void<E>::value || std::is_same<E, uint32_t>::value;
   if (c.kind == K_CSC_READGRAPH || c.kind == K_CSC_GRFILE) {
     cfg = cfg % 5;
-    if (std::is_void<E>::value && (cfg == 1 || cfg == 3))
-      cfg -= 1; // by-value in-edge data needs edge data
     if (!full && cfg >= 2)
       cfg = cfg % 2;
     label("cfg", std::to_string(cfg));
     switch (cfg) {
     case 0:
-      return run_csr_t<typename CscT<E, 0>::type, true>(c);
+      return run_csr_t<typename CscT<E, 0>::type, 1>(c);
     case 1:
-      if constexpr (!std::is_void<E>::value)
-        return run_csr_t<typename CscT<E, 1>::type, true>(c);
-      break;
+      return run_csr_t<typename CscT<E, 1>::type, 2>(c);
     case 2:
       if constexpr (std::is_void<E>::value || std::is_same<E, uint32_t>::value)
-        return run_csr_t<typename CscT<E, 2>::type, true>(c);
+        return run_csr_t<typename CscT<E, 2>::type, 1>(c);
       break;
     case 3:
-      if constexpr (std::is_same<E, uint32_t>::value)
-        return run_csr_t<typename CscT<E, 3>::type, true>(c);
+      if constexpr (std::is_void<E>::value || std::is_same<E, uint32_t>::value)
+        return run_csr_t<typename CscT<E, 3>::type, 2>(c);
       break;
     default:
       if constexpr (std::is_void<E>::value || std::is_same<E, uint32_t>::value)
-        return run_csr_t<typename CscT<E, 4>::type, true>(c);
+        return run_csr_t<typename CscT<E, 4>::type, 1>(c);
     }
     fail("harness", "unreachable csc cfg %d", cfg);
   }
@@ -731,22 +809,22 @@ static void run_csr_e(const Ctx& c, int cfg) {
   label("cfg", std::to_string(cfg));
   switch (cfg) {
   case 0:
-    return run_csr_t<typename CsrT<E, 0>::type, false>(c);
+    return run_csr_t<typename CsrT<E, 0>::type, 0>(c);
   case 1:
-    return run_csr_t<typename CsrT<E, 1>::type, false>(c);
+    return run_csr_t<typename CsrT<E, 1>::type, 0>(c);
   default:
     break;
   }
   if constexpr (std::is_void<E>::value || std::is_same<E, uint32_t>::value) {
     switch (cfg) {
     case 2:
-      return run_csr_t<typename CsrT<E, 2>::type, false>(c);
+      return run_csr_t<typename CsrT<E, 2>::type, 0>(c);
     case 3:
-      return run_csr_t<typename CsrT<E, 3>::type, false>(c);
+      return run_csr_t<typename CsrT<E, 3>::type, 0>(c, true);
     case 4:
-      return run_csr_t<typename CsrT<E, 4>::type, false>(c);
+      return run_csr_t<typename CsrT<E, 4>::type, 0>(c, true);
     default:
-      return run_csr_t<typename CsrT<E, 5>::type, false>(c);
+      return run_csr_t<typename CsrT<E, 5>::type, 0>(c);
     }
   }
   fail("harness", "unreachable csr cfg %d", cfg);
@@ -783,5 +861,9 @@ void run_csr(const Ctx& c) {
   }
 }
 } // namespace c11
+
+// sanitizer reports end the process through abort(): the driver's SIGABRT handler then saves the running case
+extern "C" const char* __asan_default_options() { return "abort_on_error=1:detect_leaks=0"; }
+extern "C" const char* __ubsan_default_options() { return "abort_on_error=1"; }
 
 VERIF_INPROC_MAIN(galois::SharedMemSys G)
